@@ -67,13 +67,23 @@ KINDS_6 = ("BEHAVIOUR-PRESERVING FEATURE WORK AND LARGER REFACTORS: adding a new
            "jnp.asarray of an array); early-exit guards for cases that currently reach the same result more slowly "
            "(zero-length loops, empty chains); reorganising a long function into phases (validate / prepare / compute / "
            "finalise) across helper functions without changing the order of any floating point operation or PRNG use")
+KINDS_7 = ("LARGER, MIXED REFACTORING COMMITS (each 40-150 changed lines, combining two or three of the following in one "
+           "coherent commit): renaming private helpers / locals / private fields consistently; extracting helpers or "
+           "private methods and inlining others; turning closures into module-level functions, functools.partial or small "
+           "callable classes (identity equality); introducing a private mixin / intermediate base class / NamedTuple / type "
+           "alias; replacing loops by comprehensions or the reverse; early returns vs nested if/else; match statements; "
+           "hoisting and reusing computed values; explicit defaults and keyword arguments; newer equivalent API spellings; "
+           "named module-level constants; moving helpers between modules of the package with an import back; splitting a "
+           "function into phases; adding optional keyword arguments with behaviour-preserving defaults; adding docstrings, "
+           "annotations, __repr__, validation that never triggers, and unused additive helpers. REMOVING genuinely dead "
+           "code (an unused import, an unused local, an unreachable branch) is allowed where you have verified it is dead")
 base = json.load(open("/root/.vp/BASELINE.json"))
 os.makedirs(root, exist_ok=True)
 open(f"{root}/baseline_stable_pass.txt", "w").write("\n".join(base["stable_pass"]) + "\n")
 open(f"{root}/baseline_always_fail.txt", "w").write("\n".join(base.get("always_fail", [])) + "\n")
 for a, area in areas.items():
     wt = f"{root}/wt_{a}"
-    kinds = KINDS_1 if rnd == 1 else KINDS_6 if rnd >= 6 else KINDS_5 if rnd == 5 else KINDS_4 if rnd == 4 else KINDS_2
+    kinds = KINDS_1 if rnd == 1 else KINDS_7 if rnd >= 7 else KINDS_6 if rnd == 6 else KINDS_5 if rnd == 5 else KINDS_4 if rnd == 4 else KINDS_2
     open(f"{root}/prompt_{a}.txt", "w").write(f"""You are helping test a code-analysis tool for false alarms. You work ONLY inside your own scratch git worktree: {wt} (a detached worktree of the Python library flowjax, a JAX/Equinox library of bijections, distributions, normalizing flows and training loops). Do NOT read or write anything under /verif, /root/.vp, /root/.claude, /repo, or any other directory under /tmp.
 
 TASK: produce SIX independent, strictly BEHAVIOUR-PRESERVING refactorings (call them R1..R6) of the library source in this area: {area}. Each must be the kind of commit a maintainer would plausibly make and a reviewer would accept as a pure refactor / clean-up, for example: {kinds}. Make them non-trivial (each should touch at least a few lines of real code, not only comments) and DIFFERENT in kind from each other; spread them over the files of the area. They must NOT change any observable behaviour for any input (values, shapes, errors raised and their types, randomness/key usage, gradients, pytree structure of the models, numerical stability: do not replace a numerically stable formula by a mathematically equivalent unstable one, and do not change the order of floating-point operations).
